@@ -111,6 +111,21 @@ pub struct Stamps {
     pub adate: u16,
     pub mtime: u16,
     pub mdate: u16,
+    /// raw 32 bytes of the short entry (empty when unknown)
+    pub raw: Vec<u8>,
+}
+
+impl Stamps {
+    pub fn same_stamps(&self, o: &Stamps) -> bool {
+        (self.ctenth, self.ctime, self.cdate, self.adate, self.mtime, self.mdate) == (o.ctenth, o.ctime, o.cdate, o.adate, o.mtime, o.mdate)
+    }
+    /// raw entries equal outside the timestamp fields
+    pub fn same_raw_except_stamps(&self, o: &Stamps) -> bool {
+        if self.raw.len() != 32 || o.raw.len() != 32 {
+            return true;
+        }
+        (0..32).all(|i| (13..20).contains(&i) || (22..26).contains(&i) || self.raw[i] == o.raw[i])
+    }
 }
 
 #[derive(Clone, Debug)]
